@@ -539,10 +539,13 @@ func (stubFees) GetCombinedFeesForRelay(context.Context, sdk.ValAddress, string)
 	}, nil
 }
 
-type oneQueue struct{ opt *consensus.QueueOptions }
+type oneQueue struct {
+	opt    *consensus.QueueOptions
+	attest func(ctx context.Context, q consensus.Queuer, msg types.QueuedSignedMessageI) error
+}
 
 func (q oneQueue) SupportedQueues(context.Context) ([]consensus.SupportsConsensusQueueAction, error) {
-	return []consensus.SupportsConsensusQueueAction{{QueueOptions: *q.opt}}, nil
+	return []consensus.SupportsConsensusQueueAction{{QueueOptions: *q.opt, ProcessMessageForAttestation: q.attest}}, nil
 }
 
 func runEndBlock(t *testing.T, run *emit.Run, r *rand.Rand, stateStore storetypes.CommitMultiStore, storeKey *storetypes.KVStoreKey) {
@@ -561,8 +564,24 @@ func runEndBlock(t *testing.T, run *emit.Run, r *rand.Rand, stateStore storetype
 		consensus.WithStaticTypeCheck(&evmtypes.Message{}),
 		consensus.WithChainInfo("evm", "bla"),
 		consensus.WithVerifySignature(func([]byte, []byte, []byte) bool { return true }),
-	)})
+	), attest: func(c context.Context, q consensus.Queuer, msg types.QueuedSignedMessageI) error {
+		// a minimal attester for this stub environment (the real evm one is driven in attest_test.go):
+		// a winner removes the message
+		if len(msg.GetEvidence()) == 0 {
+			return nil
+		}
+		var evs []libcons.Evidence
+		for _, e := range msg.GetEvidence() {
+			evs = append(evs, e)
+		}
+		cc := libcons.New(func(context.Context) (*valsettypes.Snapshot, error) { return vs.snap, nil }, appCodec)
+		if _, err := cc.VerifyEvidence(c, evs); err != nil {
+			return nil
+		}
+		return q.Remove(c, msg.GetId())
+	}})
 	k := conskeeper.NewKeeper(appCodec, runtime.NewKVStoreService(storeKey), ps, vs, kreg, stubFees{})
+	srv := conskeeper.NewMsgServerImpl(*k)
 	ctx := sdk.NewContext(stateStore, tmproto.Header{}, false, log.NewNopLogger())
 
 	nEB := run.N / 5
@@ -609,6 +628,50 @@ func runEndBlock(t *testing.T, run *emit.Run, r *rand.Rand, stateStore storetype
 				case 1:
 					val = 0
 				}
+				if r.Intn(4) == 0 {
+					// one MsgAddMessageGasEstimates through the real msg server, executed like a transaction (all or nothing);
+					// half of them carry the SAME (queue, id) twice, with the same or another value
+					if val == 0 {
+						val = 1
+					}
+					batch := []*types.MsgAddMessageGasEstimates_GasEstimate{{MsgId: id, QueueTypeName: qname, Value: val}}
+					if r.Intn(2) == 0 {
+						val2 := val
+						if r.Intn(2) == 0 {
+							val2 = val + 1 + uint64(r.Intn(1000))
+							if val2 == 0 {
+								val2 = 7
+							}
+						}
+						batch = append(batch, &types.MsgAddMessageGasEstimates_GasEstimate{MsgId: id, QueueTypeName: qname, Value: val2})
+					}
+					creator := sdk.AccAddress(valAddr(v)).String()
+					cctx, write := ctx.CacheContext()
+					_, err := srv.AddMessageEstimates(cctx, &types.MsgAddMessageGasEstimates{
+						Metadata: valsettypes.MsgMetadata{Creator: creator, Signers: []string{creator}}, Estimates: batch,
+					})
+					if err == nil {
+						write()
+						for _, b := range batch {
+							stored = append(stored, est{v, b.Value})
+							ops = append(ops, fmt.Sprintf("C04.EEstimate %d %s true", v, emit.ZU(b.Value)))
+						}
+					}
+					run.Count("estimate-batch", fmt.Sprintf("%d entries for one message, accepted=%v", len(batch), err == nil))
+					mm, err2 := k.GetMessagesFromQueue(ctx, qname, 0)
+					if err2 != nil || len(mm) != 1 {
+						t.Fatalf("queue read: %v (%d msgs)", err2, len(mm))
+					}
+					seen := map[string]bool{}
+					for _, e := range mm[0].GetGasEstimates() {
+						if seen[string(e.ValAddress)] {
+							run.Violate("C04:validator-has-two-estimates", "a validator has two gas estimate entries on one message (its shares count twice in the election)",
+								map[string]any{"snapshot": coqSnapshot(ids, shares, tot), "ops": ops, "batch": fmt.Sprint(batch)})
+						}
+						seen[string(e.ValAddress)] = true
+					}
+					continue
+				}
 				err := k.AddMessageGasEstimates(ctx, valAddr(v), []*types.MsgAddMessageGasEstimates_GasEstimate{{MsgId: id, QueueTypeName: qname, Value: val}})
 				if err == nil {
 					stored = append(stored, est{v, val})
@@ -646,13 +709,15 @@ func runEndBlock(t *testing.T, run *emit.Run, r *rand.Rand, stateStore storetype
 					backing := new(big.Int)
 					members := 0
 					lo, hi := ^uint64(0), uint64(0)
+					distinct := map[int]bool{}
 					for _, e := range stored {
 						for kx, sid := range ids {
-							if sid == e.id {
+							if sid == e.id && !distinct[e.id] { // DISTINCT submitters
 								backing.Add(backing, shares[kx])
 								members++
 							}
 						}
+						distinct[e.id] = true
 						if e.v < lo {
 							lo = e.v
 						}
@@ -695,6 +760,153 @@ func runEndBlock(t *testing.T, run *emit.Run, r *rand.Rand, stateStore storetype
 			len(ops) >= 3 && requires, map[string]any{"kind": "endblock", "requires_estimate": requires, "ops": ops})
 		if err := k.DeleteJob(ctx, qname, id); err != nil {
 			t.Fatal(err)
+		}
+	}
+	nBack := 1
+	if run.Tier != "quick" {
+		nBack = 4
+	}
+	for i := 0; i < nBack; i++ {
+		runBacklog(t, run, r, k, vs, ctx, qname)
+	}
+}
+
+// runBacklog: one queue with a backlog of 1001..1040 pending messages; the LAST ones get estimates / evidence from
+// two thirds (and one of them from less): the end-block must elect / declare them wherever they sit in the queue.
+func runBacklog(t *testing.T, run *emit.Run, r *rand.Rand, k *conskeeper.Keeper, vs *stubValset, ctx sdk.Context, qname string) {
+	n := 1001 + r.Intn(40)
+	var idsQ []uint64
+	for i := 0; i < n; i++ {
+		msg := &evmtypes.Message{TurnstoneID: "abc", ChainReferenceID: "bla", Assignee: valAddr(0).String(),
+			Action: &evmtypes.Message_SubmitLogicCall{SubmitLogicCall: &evmtypes.SubmitLogicCall{}}}
+		id, err := k.PutMessageInQueue(ctx, qname, msg, &consensus.PutOptions{RequireSignatures: true, RequireGasEstimation: true})
+		if err != nil {
+			t.Fatal(err)
+		}
+		idsQ = append(idsQ, id)
+	}
+	nv := 3 + r.Intn(4)
+	ids := r.Perm(8)[:nv]
+	shares := make([]*big.Int, nv)
+	for i := range shares {
+		shares[i] = big.NewInt(int64(1 + r.Intn(9)))
+	}
+	sn, tot := snapshotOf(ids, shares)
+	vs.snap = sn
+	// validators in snapshot order until two thirds are reached / just not reached
+	upTo := func(reach bool) []int {
+		var out []int
+		sum := new(big.Int)
+		for i := range ids {
+			next := new(big.Int).Add(sum, shares[i])
+			ok := new(big.Int).Mul(next, big.NewInt(3)).Cmp(new(big.Int).Mul(tot, big.NewInt(2))) >= 0
+			if ok && !reach {
+				break
+			}
+			out = append(out, ids[i])
+			sum = next
+			if ok {
+				break
+			}
+		}
+		return out
+	}
+	mEst, mEstShort, mEv, mEvShort := idsQ[n-1], idsQ[n-2], idsQ[n-3], idsQ[n-4]
+	proof := &evmtypes.SmartContractExecutionErrorProof{ErrorMessage: fmt.Sprintf("boom-%d", r.Intn(100))}
+	pa, _ := codectypes.NewAnyWithValue(proof)
+	estOps := map[uint64][]string{}
+	evOps := map[uint64][]string{}
+	val := 1 + emit.U64(r)%1000000
+	for _, c := range []struct {
+		id    uint64
+		reach bool
+	}{{mEst, true}, {mEstShort, false}} {
+		for _, v := range upTo(c.reach) {
+			err := k.AddMessageGasEstimates(ctx, valAddr(v), []*types.MsgAddMessageGasEstimates_GasEstimate{{MsgId: c.id, QueueTypeName: qname, Value: val}})
+			estOps[c.id] = append(estOps[c.id], fmt.Sprintf("C04.EEstimate %d %s %s", v, emit.ZU(val), emit.Bool(err == nil)))
+		}
+	}
+	for _, c := range []struct {
+		id    uint64
+		reach bool
+	}{{mEv, true}, {mEvShort, false}} {
+		for _, v := range upTo(c.reach) {
+			err := k.AddMessageEvidence(ctx, valAddr(v), &types.MsgAddEvidence{MessageID: c.id, QueueTypeName: qname, Proof: pa})
+			evOps[c.id] = append(evOps[c.id], fmt.Sprintf("C04.ASubmit %d 0 %s", v, emit.Bool(err == nil)))
+		}
+	}
+	if err := k.CheckAndProcessEstimatedMessages(ctx); err != nil {
+		t.Fatal(err)
+	}
+	if err := k.CheckAndProcessAttestedMessages(ctx); err != nil {
+		t.Fatal(err)
+	}
+	after, err := k.GetMessagesFromQueue(ctx, qname, 0)
+	if err != nil {
+		t.Fatal(err)
+	}
+	byID := map[uint64]types.QueuedSignedMessageI{}
+	for _, m := range after {
+		byID[m.GetId()] = m
+	}
+	pos := func(id uint64) int {
+		for i, x := range idsQ {
+			if x == id {
+				return i + 1
+			}
+		}
+		return 0
+	}
+	replay := func(id uint64) map[string]any {
+		return map[string]any{"kind": "backlog", "queue_length": n, "message_position": pos(id), "snapshot": coqSnapshot(ids, shares, tot),
+			"estimates": estOps[id], "evidence": evOps[id]}
+	}
+	for _, c := range []struct {
+		id    uint64
+		reach bool
+	}{{mEst, true}, {mEstShort, false}} {
+		m := byID[c.id]
+		if m == nil {
+			t.Fatalf("message %d vanished", c.id)
+		}
+		el := m.GetGasEstimate()
+		if c.reach && el == 0 {
+			run.Violate("C04:two-thirds-estimated-but-nothing-elected", fmt.Sprintf("submitters with 2/3 of the snapshot shares estimated the message at position %d of %d, the end-block elected nothing", pos(c.id), n), replay(c.id))
+		}
+		if !c.reach && el != 0 {
+			run.Violate("C04:estimate-without-quorum", "end-block elected an estimate with less than 2/3 of snapshot shares behind the estimates", replay(c.id))
+		}
+		var es []string
+		for _, e := range m.GetGasEstimates() {
+			es = append(es, emit.Pair(emit.ZI(int64(e.ValAddress[19])), emit.ZU(e.Value)))
+		}
+		run.Count("kind", "backlog")
+		run.Case(fmt.Sprintf("C04.CEndBlock true %s %s %s", emit.List(append(append([]string{}, estOps[c.id]...), fmt.Sprintf("C04.EBlock %s %s", coqSnapshot(ids, shares, tot), emit.ZU(el)))), emit.List(es), emit.ZU(el)),
+			true, replay(c.id))
+	}
+	for _, c := range []struct {
+		id    uint64
+		reach bool
+	}{{mEv, true}, {mEvShort, false}} {
+		_, still := byID[c.id]
+		if c.reach && still {
+			run.Violate("C04:two-thirds-agree-but-message-stays", fmt.Sprintf("2/3 of the snapshot shares submitted the same evidence for the message at position %d of %d but it stays queued", pos(c.id), n), replay(c.id))
+		}
+		if !c.reach && !still {
+			run.Violate("C04:message-removed-without-two-thirds-on-fields", "a message was declared and removed with less than 2/3 of the snapshot shares on one answer", replay(c.id))
+		}
+		got := "(-1)"
+		if !still {
+			got = "0"
+		}
+		run.Count("kind", "backlog")
+		run.Case(fmt.Sprintf("C04.CAttest %s 0 %s %s", coqSnapshot(ids, shares, tot), emit.List([]string{cproof(proof)}), emit.List(append(append([]string{}, evOps[c.id]...), "C04.AProcess "+got))),
+			true, replay(c.id))
+	}
+	run.Count("backlog-length", fmt.Sprint(n))
+	for _, id := range idsQ {
+		if _, ok := byID[id]; ok {
+			_ = k.DeleteJob(ctx, qname, id)
 		}
 	}
 }
